@@ -202,7 +202,7 @@ Proof. exact sdelay_dec_total. Qed.
 Print Assumptions C19_stanza_delay_unmarshal_total.
 
 (* ---- xtime.Time ---- *)
-Theorem C19_xtime_roundtrip : roundtrip xtime_c xtime_dom (fun t => t).
+Theorem C19_xtime_roundtrip : roundtrip xtime_c xtime_dom xtime_norm.
 Proof. exact xtime_roundtrip. Qed.
 Print Assumptions C19_xtime_roundtrip.
 Theorem C19_xtime_wellformed : wellformed xtime_c [time_name; ln (str "tzo"); ln (str "utc")] [].
@@ -387,6 +387,27 @@ Print Assumptions C19_file_meta_wellformed.
 Theorem C19_file_meta_unmarshal_total : dec_total fmeta_c.
 Proof. exact fmeta_dec_total. Qed.
 Print Assumptions C19_file_meta_unmarshal_total.
+
+(* ---- the zone offset text of xtime (XEP-0082 TZD) ---- *)
+
+(* the model's formatter (not an oracle: compared with the code's output on every case) and the
+   reading of the text are inverse: for every offset within a day, in seconds, the text denotes
+   the offset in whole minutes; for whole-minute offsets the offset itself *)
+Theorem C19_tzo_parse_format : forall off, (-86400 < off < 86400)%Z ->
+  parse_tzo (format_tzo off) = Some (Z.quot off 60 * 60)%Z.
+Proof. exact parse_format_tzo. Qed.
+Print Assumptions C19_tzo_parse_format.
+
+Theorem C19_tzo_parse_format_minutes : forall off, (-86400 < off < 86400)%Z -> Z.rem off 60 = 0%Z ->
+  parse_tzo (format_tzo off) = Some off.
+Proof. exact parse_format_tzo_minutes. Qed.
+Print Assumptions C19_tzo_parse_format_minutes.
+
+(* hence the tzo premise of C19_xtime_roundtrip holds whenever time.Parse("Z07:00") reads what
+   the text denotes *)
+Theorem C19_xtime_tzo_premise : forall o t, tzo_parse_agrees o -> (-86400 < t_off t < 86400)%Z -> tzo_roundtrip o t.
+Proof. exact tzo_roundtrip_from_agreement. Qed.
+Print Assumptions C19_xtime_tzo_premise.
 
 (* ---- special cases ---- *)
 
